@@ -1,5 +1,5 @@
 (* Correspondence evaluators for the solution-set checker (C01, C03, C04, C16, C06). *)
-From EB Require Export Corr.Common Check.Set Spec.GraphRef.
+From EB Require Export Corr.Common Check.Set Spec.GraphRef Spec.TwoPassSpec.
 Open Scope list_scope.
 Open Scope Z_scope.
 
@@ -109,5 +109,38 @@ Definition graph_spec_fail (c : graph_case) : bool :=
            zzlist_eqb (sort_lists keys) (sort_lists (nodup (list_eq_dec Z.eq_dec) keys)))
   || (g_res c =? 4).
 
-Definition graph_mismatches := collect graph_mismatch.
-Definition graph_spec_failures := collect graph_spec_fail.
+Definition graph_mismatches := Common.collect graph_mismatch.
+Definition graph_spec_failures := Common.collect graph_spec_fail.
+
+(* ---- C03: post-state reads and key successors through the hook ---- *)
+Record post_case := {
+  pc_entries : post_state;                       (* proposed (contract, key, value) in insertion order *)
+  pc_state : state;
+  pc_contract : list Z; pc_key : list Z; pc_n : Z;
+  pc_res : list (list Z);                        (* verif::read_post (the state never fails) *)
+  pc_pre_res : list (list Z);                    (* the pre-state view asked directly *)
+  pc_succ : list (list Z * option (list Z));     (* verif::successor on sample keys *)
+}.
+
+Definition optkey_eqb (a b : option (list Z)) : bool :=
+  match a, b with Some x, Some y => zlist_eqb x y | None, None => true | _, _ => false end.
+
+Definition post_mismatch (c : post_case) : bool :=
+  negb (match read_or_fallback (pc_entries c) (state_view (pc_state c)) (pc_contract c) (pc_key c) (pc_n c) with
+        | Some r => zzlist_eqb r (pc_res c)
+        | None => false
+        end
+        && forallb (fun e => optkey_eqb (next_key (fst e)) (snd e)) (pc_succ c)).
+
+(* the overlay semantics of the property, evaluated on what the implementation returned *)
+Definition post_spec_fail (c : post_case) : bool :=
+  let ks := keys_from (pc_key c) (req (pc_n c)) in
+  negb (zzlist_eqb (pc_res c) (map (overlay_val (pc_entries c) (pc_state c) (pc_contract c)) ks)
+        && zzlist_eqb (pc_pre_res c) (map (st_val (pc_state c) (pc_contract c)) ks)   (* pre reads never see mutations *)
+        && forallb (fun e => match snd e with
+                             | Some k' => (num k' =? num (fst e) + 1) && (length k' =? length (fst e))%nat
+                             | None => match fst e with [] => true | k => forallb (fun w => w =? i64_max) k end
+                             end) (pc_succ c)).
+
+Definition post_mismatches := Common.collect post_mismatch.
+Definition post_spec_failures := Common.collect post_spec_fail.
